@@ -511,6 +511,22 @@ func (w *World) observeProofs(n *Node, st *State, seed uint64) (out []obs) {
 			return
 		}
 	}
+	if w.opt.Property == "C17" && n.isMap() && !n.big() && n.mp.Rows() != L.R && r.Pct(30) {
+		// a proof whose targets are numbered for the forest's allocated height (the
+		// map forest reads both numberings): the answer is not judged here, the
+		// caller's slices must come back as they were (fingerprints)
+		sub := padH(w.pickSubset(r, st, pool))
+		pr, _ := L.CanonProof(sub)
+		ts := make([]uint64, len(pr.Targets))
+		for i, h := range sub {
+			ts[i] = L.LeafAt[h].Pos(n.mp.Rows())
+		}
+		pr.Targets, pr.Proof = padU(ts), padH(pr.Proof)
+		g := w.fp.begin("acc.Verify", sub, pr.Targets, pr.Proof)
+		guard(func() error { return n.acc.Verify(sub, pr, false) })
+		g.end()
+		w.stats.Reach["verify_targets_in_allocated_height_numbering"]++
+	}
 	if w.opt.Property == "C17" && len(pool) >= 2 && r.Pct(25) {
 		// a request that names a leaf twice in a row: whatever the answer is (not
 		// judged), the caller's list must come back as it was (fingerprints)
